@@ -60,7 +60,10 @@ def install(repo='/repo'):
     _done = True
     os.environ.setdefault('SDC11073_VERIF', '1')
     import logging
-    logging.disable(logging.CRITICAL)  # logging of the library is not part of any property; keeps runs fast
+    if os.environ.get('DSIM_LOG'):
+        logging.basicConfig(level=getattr(logging, os.environ['DSIM_LOG'].upper(), logging.WARNING), stream=sys.stderr)
+    else:
+        logging.disable(logging.CRITICAL)  # logging of the library is not part of any property; keeps runs fast
     from . import sched, net, aio
     sched.install()
     net.install()
